@@ -362,7 +362,7 @@ func explorePair(scratch string, a, b op, bound int, rep *Report, deadline time.
 	pr := PairReport{A: a.name, B: b.name, Bound: bound, Exhaustive: true}
 	nviol := 0
 	sched.Explore(bound, func(prefix []int) []sched.PointRec {
-		S := &sched.Sched{}
+		S := &sched.Sched{FreeGrace: 5 * time.Second}
 		capped := false
 		yieldHooks(S, capFor(bound), &capped)
 		installSync(S)
@@ -593,7 +593,7 @@ func kindOf(name string) string {
 
 func replayOne(scratch string, a, b op, cas Case, rep *Report) {
 	soloA, soloB := a.run(scratch), b.run(scratch)
-	S := &sched.Sched{}
+	S := &sched.Sched{FreeGrace: 5 * time.Second}
 	yieldHooks(S, capFor(cas.Bound), nil)
 	installSync(S)
 	var ra, rb string
